@@ -34,7 +34,7 @@ TEXT = {
  "C19": dict(
   technique="deterministic simulation: two BIP324 endpoints (real<->real, real<->independent reference) on a seeded adversarial byte stream; prefix/authentication oracles, byte-equal ciphertext across rekeys",
   level="Seeded search over roles, garbage lengths, decoys, packet sequences crossing rekey boundaries, delivery chunking and one adversarial fault per run; ciphertext compared byte for byte with an independent implementation written from the BIP; received plaintext sequence must be a prefix of what was sent and the first read consuming a tampered byte must fail.",
-  note="Reference endpoint anchored by published BIP324 vectors; secp256k1/ellswift math is the repository's own.",
+  note="Reference endpoint anchored by published BIP324 vectors; secp256k1/ellswift math is the repository's own. 15% of the runs are 'peerlink' runs: a real peer.Peer on the v2 transport against the reference node on a simulated connection (sent-equals-received both ways, torn socket writes, bit flips, hang-ups, v1 downgrade in both directions).",
   ref="DESIGN.md §5 C19"),
 }
 
@@ -69,19 +69,19 @@ TEXT["C10"] = dict(
 TEXT["C12"] = dict(
   technique="deterministic simulation: block templates generated by the real generator on seeded reachable pool states, tips and mining policies; every clause recomputed independently, then time/extra nonce updated at a later simulated clock value, the block solved and fed back through ProcessBlock",
   level="For each template: generation succeeds when its precondition holds; parents precede children; fees and sigop costs per transaction equal values recomputed from the harness's own amounts and script shapes; coinbase pays exactly subsidy + fees; witness commitment present iff needed and equal to an independent computation; merkle root, required bits and version equal the model's; weight/sigop limits respected; after UpdateBlockTime/UpdateExtraNonce and solving, ProcessBlock accepts the block onto the tip it was built for and the pool/UTXO invariants still hold.",
-  note="Sigop cost model covers the script shapes the world generates; megabyte-scale limit cases are not generated.",
+  note="Sigop cost model covers the script shapes the world generates; megabyte-scale limit cases are not generated. A quarter of the runs are on retargeting networks (BIP94, minimum-difficulty rule) with the adjusted clock stepped back by skewed peers before UpdateBlockTime; time and bits of the updated template are judged.",
   ref="DESIGN.md §5 C12")
 
 TEXT["C18"] = dict(
   technique="deterministic simulation: one real peer.Peer on a harness-owned connection against a scripted remote; seeded byte chunking, simulated timers, caller goroutines and guarded yield points decide the interleaving; handshake model, FIFO/exactly-once completion, goroutine-leak and race-detector oracles",
   level="Seeded search over both directions, local configurations, remote scripts (valid, out of order, duplicated, unknown, malformed, wrong magic, self connection, obsolete version), chunking down to 1 byte, delays straddling the negotiate/idle/stall/ping timers, stalled remotes, slow listeners, and 1-6 application goroutines queueing messages/inventory and disconnecting before, during and after the handshake; a goroutine can be parked at one of 7 guarded yield sites inside the peer across later events. Oracles O1-O7 of DESIGN §5 C18; binary built with -race.",
-  note="Event-stepped and yield modes are replayable (60-seed x 6-process determinism self-test per run); burst steps are not and are excluded from replay claims. 'Queued before the disconnect' is judged by logical stamps of the calling goroutines. The BIP324 transport inside peer is C19's subject.",
+  note="Event-stepped and yield modes are replayable (60-seed x 6-process determinism self-test per run); burst steps are not and are excluded from replay claims. 'Queued before the disconnect' is judged by logical stamps of the calling goroutines. The BIP324 transport inside peer is C19's subject. Reject messages travel in both directions and a 'crossfire' step releases a queued send at the moment inbound bytes arrive (race detector only; not part of the replay claim).",
   ref="DESIGN.md §5 C18")
 
 TEXT["C05"] = dict(
   technique="deterministic simulation with fault enumeration: real ffldb + real goleveldb on a simulated disk (every I/O call an indexed fault point: error, short write, crash with process-crash or power-loss semantics), refinement against an in-memory reference database, porcupine for reader/writer isolation",
   level="Seeded operation sequences (buckets, keys, cursors, blocks, regions, pruning, commits/rollbacks, reopen, cache/file-size knobs) are executed in lockstep with the reference model modeldb (fault-free refinement); for each sampled workload every I/O call index is made to fail in turn (complete enumeration for workloads up to 60 I/O calls in quick, 400 in thorough) and the store must be in the before- or after-state of the interrupted transaction; crashes at every enumerated I/O point (process crash and power loss, 20% with a second crash during reopen) must reopen to a prefix of the committed transactions no shorter than the last completed flush, byte-identical blocks; reader/writer interleavings (snapshots held across later commits and flushes, 2..60 keys, every access path with strict iteration order) are checked with porcupine; several writer goroutines contend for the write lock and must be serialised (no stale snapshot, no lost update, no bucket-id collision).",
-  note="goleveldb runs in a deterministic configuration (L0 triggers raised, seek compaction off, 64 KiB write buffer) so that all I/O happens on the driver goroutine and fault indices replay; its own background-compaction configuration is not explored. Four remaining known findings (F-C05-1,3,7,8) are reported as KNOWN-FINDING.",
+  note="goleveldb runs in a deterministic configuration (L0 triggers raised, seek compaction off, 64 KiB write buffer) so that all I/O happens on the driver goroutine and fault indices replay; its own background-compaction configuration is not explored. Four remaining known findings (F-C05-1,3,7,8) are reported as KNOWN-FINDING. In 30% of the executions an injected I/O error is followed by a crash some I/O calls later; a commit that returned an error must leave the running store unchanged.",
   ref="DESIGN.md §5 C05")
 
 READY = ["C01", "C02", "C03", "C04", "C05", "C09", "C10", "C12", "C14", "C17", "C18", "C19"]
